@@ -143,6 +143,21 @@ def proof_status(pid):
     return res
 
 
+def coqchk(pid):
+    """thorough tier: re-check the compiled property file and everything it depends on with the independent checker."""
+    cmd = 'coqchk -o -silent -Q %s Icv Icv.Properties_%s' % (COQ, pid)
+    try:
+        rc, o, e = sh('timeout 1500 ' + cmd, cwd=COQ, timeout=1600)
+    except subprocess.TimeoutExpired:
+        return {'ok': False, 'cmd': cmd, 'log': 'timeout'}
+    txt = o + e
+    axioms = []
+    m = re.search(r'\* Axioms:(.*?)(?:\n\* |\Z)', txt, re.S)
+    if m:
+        axioms = [l.strip() for l in m.group(1).splitlines() if l.strip() and l.strip() != '<none>']
+    return {'ok': rc == 0, 'cmd': cmd, 'axioms_of_all_loaded_libraries': axioms[:40], 'log': txt[-600:]}
+
+
 def forbidden_scan():
     hits = []
     for root, _, files in os.walk(COQ):
